@@ -118,6 +118,23 @@ CHECKS['C02'] = {
     ],
 }
 
+CHECKS['C03'] = {
+    'level': 'exploration',
+    'technique': 'round-trip property testing over generated Message sequences x byte segmentations x DoOutput/DoInput interleavings on in-memory choppy pipes, for every stream gateway kind; reference line splitter and RFC-1055 decoder as independent oracles for text and SLIP',
+    'level_text': ('Generated search over (gateway kind, configuration, Message sequence, per-call read/write sizes incl. zero-byte would-block and one byte at a time, max-bytes arguments). '
+                   'Oracle: the received sequence equals the sent one by flattened bytes (binary kinds, templating, WebSocket both directions, C mini/micro gateways against the C++ one), by concatenated lines (text), '
+                   'by byte stream / k-sized prefix (raw), by frame list plus an independent RFC-1055 decode of the wire bytes (SLIP). Held = equal on everything generated.'),
+    'level_note': ('Trusted: the reference encoder of C01 for the sent bytes. Templating: while known finding F11 (structural template-hash collisions) stands, a Message whose shape collides with an earlier different shape '
+                   'under the same hash is not sent (counted). Raw/SLIP chunks stay <= 300 bytes while F12 (unbounded recursion per successful write) stands.'),
+    'rule': ('Byte-decoded cases over 30 kind slots: MessageIOGateway x 10 encodings, mid-stream encoding switches, independent zlib streams, counted, templating (LRU 0/200/4096/1MiB), plain text (CRLF/LF/CR + receiver-only metamorphic), raw, raw min-chunk, SLIP, WebSocket client/server with slave gateways, mini and micro C gateways in both directions, 300 KiB Messages. '
+             'Non-trivial: >= 2 Messages (lines for the metamorphic text check) and at least one read or write that moved fewer bytes than it could have (split inside a frame). Distinct: hash of (kind, sent bytes).'),
+    'assumptions': ['text lines exclude NUL, CR and LF bytes (the text gateway cannot carry them inside a line)'],
+    'targets': [
+        {'name': 'c03_gateways', 'src': ['harness/C03_gateways.cpp'], 'ccodecs': True, 'quick_n': 150000, 'thorough_n': 3000000, 'maxlen': 1500, 'min_nontrivial': 30000, 'budget': 60,
+         'class_floors': {'binary_zlib': 10000, 'templating': 5000, 'text': 3000, 'slip': 1500, 'raw': 1500, 'raw_min_chunk': 1500, 'websocket': 5000, 'mini_gateway': 1500, 'micro_gateway': 1500, 'binary_encoding_switches': 3000, 'binary_zlib_independent_streams': 1500, 'binary_300KiB': 1500}},
+    ],
+}
+
 
 def setup():
     t0 = time.time()
